@@ -120,6 +120,65 @@ def run(tier, seed):
         if len(v.cov["samples"]) < 3 and ncalls >= 2 and len(reqs) >= 2:
             v.sample({"cfg": cfg, "script": _short(gc["script"]), "predicted": {k: pred[k] for k in ("reason", "nreq", "executed", "answered")},
                       "observed": {"executed": ex, "answered": ans, "requests": len(reqs)}})
+    # ---- what the provider sends back is echoed into the next request: unusual call ids and function names (empty, at and beyond
+    #      the schema's length limits, outside the name pattern, unicode) must never produce a request that fails the schema
+    sse = runloop.sse
+
+    def odd_call(cid, name):
+        item = {"type": "function_call", "id": "item_0", "call_id": cid, "name": name, "arguments": json.dumps({"path": "."}), "status": "completed"}
+        return {"status": 200, "chunks": [sse({"type": "response.created", "response": {"id": "resp_0"}}) + sse({"type": "response.output_item.done", "output_index": 0, "item": item})
+                                          + "data: [DONE]\n\n"]}
+    final = runloop.response_json({"outcome": "done", "rid": True, "calls": []}, 1)
+    echo = []
+    for stateless in (False, True):
+        for nm, (cid, name) in {"empty_id": ("", "ls"), "id_64": ("x" * 64, "ls"), "id_65": ("x" * 65, "ls"), "id_unicode": ("é漢", "ls"), "id_spaces": ("  ", "ls"),
+                                "name_dotted": ("c1", "functions.ls"), "name_65": ("c1", "l" * 65), "name_64": ("c1", "l" * 64), "name_empty": ("c1", ""),
+                                "name_unicode": ("c1", "lś"), "plain": ("c1", "ls")}.items():
+            echo.append({"id": f"echo-{nm}-{'stateless' if stateless else 'stateful'}", "script": [odd_call(cid, name), final, final], "linked": True, "input": "x",
+                         "config": {"tool_choice": "auto", "stateless_history": stateless}, "timeout_ms": 15000, "_valid": nm in ("id_64", "plain", "id_unicode", "id_spaces")})
+    eres = run_harness("runs", [{k: c[k] for k in c if not k.startswith("_")} for c in echo], wd, "echo", shards=8, timeout=900)
+    eby = {c["id"]: c for c in echo}
+    for res in eres:
+        c = eby[res["id"]]
+        v.add_eval({"echo": c["id"]}, True)
+        rep = {"engine": "runs", "guard": "echo", "case": {k: c[k] for k in c if not k.startswith("_")}}
+        if res["timed_out"] or not res["session_frames"]:
+            v.violation(f"run did not end ({c['id']})", rep)
+        elif c["id"].startswith("echo-plain") and len(res["requests"]) != 2:
+            v.violation(f"{c['id']}: {len(res['requests'])} requests for one ordinary call", rep)
+    # ---- independent schema oracle over every request body any case of this check sent
+    import os
+    import subprocess
+    from ..common import REPO, VERIF
+    rq_path = os.path.join(wd, "requests.ndjson")
+    owner = {}
+    with open(rq_path, "w") as f:
+        for group, rs, cs in (("runs", results, by_id), ("echo", eres, eby)):
+            for res in rs:
+                for k, rq in enumerate(res.get("requests") or []):
+                    key = f"{group}:{res['id']}:{k}"
+                    owner[key] = cs[res["id"]]
+                    f.write(json.dumps({"k": key, "body": rq["body"]}) + "\n")
+    p = subprocess.run(["python3-vt", os.path.join(VERIF, "tools", "validate_requests.py"), os.path.join(REPO, "schemas", "openresponses"), rq_path],
+                       stdout=subprocess.PIPE, stderr=subprocess.PIPE, text=True, timeout=1200)
+    if p.returncode != 0:
+        log(p.stderr[-2000:])
+        die_tool("tools/validate_requests.py failed")
+    nvalidated, seen_bad = 0, set()
+    for line in p.stdout.splitlines():
+        o = json.loads(line)
+        if "distinct_bodies" in o:
+            v.cov["request_bodies_validated_distinct"] = o["distinct_bodies"]
+            continue
+        nvalidated += 1
+        if o["errors"]:
+            c = owner[o["k"]]
+            if c["id"] in seen_bad:
+                continue
+            seen_bad.add(c["id"])
+            v.violation(f"a request that fails the CreateResponseBody schema was sent (case {c['id']}, request {o['k'].split(':')[-1]}): {o['errors'][0][:300]}",
+                        {"engine": "runs", "guard": "schema", "case": {k: c[k] for k in c if not k.startswith("_")}})
+    v.cov["request_bodies_validated"] = nvalidated
     # ---- a request that fails validation is never sent
     bad = {"id": "invalid", "script": [{"status": 200, "chunks": ["data: [DONE]\n\n"]}], "linked": True, "input": "x",
            "config": {"tool_choice": {"type": "function"}}, "timeout_ms": 15000}
@@ -152,6 +211,22 @@ def replay(path, seed):
     case = rep["case"]
     wd = workdir(PROP + "-replay")
     res = run_harness("runs", [case["case"]], wd, "replay")[0]
+    if case.get("guard") in ("schema", "echo"):
+        import os
+        import subprocess
+        from ..common import REPO, VERIF
+        rq_path = os.path.join(wd, "requests.ndjson")
+        with open(rq_path, "w") as f:
+            for k, rq in enumerate(res.get("requests") or []):
+                f.write(json.dumps({"k": str(k), "body": rq["body"]}) + "\n")
+        p = subprocess.run(["python3-vt", os.path.join(VERIF, "tools", "validate_requests.py"), os.path.join(REPO, "schemas", "openresponses"), rq_path],
+                           stdout=subprocess.PIPE, stderr=subprocess.PIPE, text=True, timeout=600)
+        bad = [json.loads(l) for l in p.stdout.splitlines() if json.loads(l).get("errors")]
+        print(json.dumps({"requests": len(res.get("requests") or []), "invalid": bad})[:2000])
+        if bad or p.returncode != 0 or res["timed_out"]:
+            print(f"VIOLATION property={PROP} replay={path}")
+            return 1
+        return 0
     sf = res["session_frames"][-1]
     ex = runloop.executed_tools(sf)
     pred = case["model"]["run"]
